@@ -12,8 +12,9 @@
 (* both insertion orders of every 2-member set / mapping, mixed-type         *)
 (* members and keys, arrays equal in data but different in dtype / shape,    *)
 (* Series / DataFrames equal in data but different in index, order, name,    *)
-(* columns.  Everything is stated as set expressions below; nothing is       *)
-(* sampled.                                                                  *)
+(* columns; equal arrays in different memory layouts and a vs a.T; equal     *)
+(* frozenset members / keys materialised with different iteration order.     *)
+(* Everything is stated as set expressions below; nothing is sampled.        *)
 (*                                                                         *)
 (* One state per universe member (`case` = its index in U); all ordered      *)
 (* pairs <<case, j>> are evaluated in the invariants of that state.          *)
@@ -84,9 +85,32 @@ D1Frame ==
     \cup {DataFrame(<<Str("B"), Str("A")>>, ix, <<Col(<<x>>), Col(<<y>>)>>) : ix \in IndexFor(1), x \in {I1, I2}, y \in {I1, I2}}
     \cup {DataFrame(<<Str("A")>>, <<>>, <<Col(<<>>)>>)}
 
+(* encoder attribute 1: memory layout.  Square arrays a, a.T (non-symmetric), a symmetric one and a      *)
+(* fourth, each materialised C-contiguous / Fortran / as a non-contiguous slice / as a transposed view:  *)
+(* all four layouts of one array are Eq, while a and a.T (same memory in layouts 0 / 3) are not.         *)
+Sq == <<I2, I2>>
+LayData == {<<I1, I2, I1, I2>>, <<I1, I1, I2, I2>>, <<I1, I2, I2, I1>>, <<I2, I1, I1, I1>>}
+D1Layout == {NdArrayL("<i8", Sq, d, lay) : d \in LayData, lay \in 0..3}
+            \cup {NdArrayL("<f8", Sq, d, lay) : d \in {<<F1, F25, F1, F25>>, <<F1, F1, F25, F25>>}, lay \in 0..3}
+            \cup {NdArrayL("|O", Sq, d, lay) : d \in {<<I1, Sa, Sb, I2>>, <<I1, Sb, Sa, I2>>}, lay \in {0, 1}}
+            \cup {NdArrayL("<i8", <<I2>>, d, 2) : d \in Len2({I1, I2})}
+
+(* encoder attribute 2: insertion order of frozensets that are members of a set / keys of a mapping.     *)
+(* {0, 8} collide in the 8-slot table (iteration order = insertion order), {"a", "b"} follow the hash     *)
+(* seed; the partner frozenset sorts BETWEEN the two iteration orders of the first, so a key that follows *)
+(* iteration order flips the two members.  (Depth 2, but part of every tier.)                             *)
+I8 == IntV(8)      Sab == Str("ab")
+FlipFamily(X, y) ==
+    X \cup {SetV(<<x, y>>) : x \in X} \cup {SetV(<<y, x>>) : x \in X}
+      \cup {Dict(<<Pair(x, I1), Pair(y, I2)>>) : x \in X} \cup {Dict(<<Pair(y, I2), Pair(x, I1)>>) : x \in X}
+      \cup {Counter(<<Pair(x, I1), Pair(y, I2)>>) : x \in X} \cup {DefaultDict("int", <<Pair(y, I2), Pair(x, I1)>>) : x \in X}
+Flips == FlipFamily({FrozenSet(<<I0, I8>>), FrozenSet(<<I8, I0>>)}, FrozenSet(<<I1>>))
+         \cup FlipFamily({FrozenSet(<<Sa, Sb>>), FrozenSet(<<Sb, Sa>>)}, FrozenSet(<<Sab>>))
+
 D1Obj == {Obj(c, <<x, y>>) : c \in {"PA", "PB"}, x \in {I1, Sa, F1}, y \in {I1, Sa, F1}}
 
 D1 == D1Seq \cup D1Deque \cup D1Set \cup D1Map \cup D1Bytes \cup D1Arr \cup D1Series \cup D1Frame \cup D1Obj
+      \cup D1Layout \cup Flips
 
 ---------------------------------------------------------------------------
 (* depth 2: members drawn from look-alike containers of depth 1 *)
